@@ -849,6 +849,12 @@ def c05(tier):
     for (N, ml) in ([(3, 5)] if tier == "quick" else [(1, 6), (2, 6), (4, 7)]):
         s.model("MCScpiProcess", mc_proc_params("tiny", TINY_SIGMA, N, ml), workers=8,
                 label="MCScpiProcess(N=%d,stream<=%d) OffsetsOk" % (N, ml), timeout=3000, heap="12g")
+    # liveness: under weak fairness of its own steps process always comes back to a read (no loop without consuming input)
+    for (sig, N, ml) in ([(TINY_SIGMA, 3, 5), ('A "\n', 4, 6)] if tier == "quick" else [(TINY_SIGMA, 4, 6), ('A:S "\n', 8, 8)]):
+        s.model("MCScpiProcess", mc_proc_params("tiny", sig, N, ml, faults=False), cfg="MCScpiProcessLive.cfg", workers=8,
+                label="MCScpiProcess liveness Progress (N=%d, stream<=%d, |Sigma|=%d)" % (N, ml, len(sig)), timeout=3000, heap="12g")
+    s.model("MCScpiProcess", mc_proc_params("tiny", 'A "\n', 4, 5, legacy='"spin"', faults=False), cfg="MCScpiProcessLive.cfg", workers=4,
+            expect_violation="Progress", label="MCScpiProcess mutant: terminator search resumes at the unfinished unit (spins)")
     cases = []
     writers = [{"k": "rec"}, {"k": "std"}] + [{"k": "heapless", "cap": c} for c in (0, 1, 2, 4, 8)]
     # (1) all strings over the class alphabet, tiny interface (A, B?, A:B, A:S)
